@@ -88,14 +88,24 @@ class Lock:
         self.f.close()
 
 # ---------------------------------------------------------------- Coq build
-def run_translators():
-    """Regenerate coq/Gen/*.v from /repo sources. Each translator is tools/translate_*.py with a
-    main() returning (ok, message). Output files are only rewritten when their content changes."""
+# which translators regenerate files that a property's Coq development depends on
+TRANSLATORS_FOR = {
+    "C18": ["translate_serde_shapes.py"],
+    "C12": ["translate_libm.py"], "C06": ["translate_libm.py"], "C07": ["translate_libm.py"],
+    "C04": ["translate_unicode.py", "translate_lef_keys.py"], "C05": ["translate_unicode.py", "translate_lef_keys.py"],
+    "C11": ["translate_unicode.py", "translate_lef_keys.py"],
+    "C01": ["translate_gds_tables.py"], "C02": ["translate_gds_tables.py"], "C03": ["translate_gds_tables.py"], "C10": ["translate_gds_tables.py"],
+}
+
+def run_translators(pid=None):
+    """Regenerate coq/Gen/*.v from the repository sources: the translators a property depends on (all of them when
+    pid is None, as in setup). Output files are only rewritten when their content changes."""
     msgs = []
     ok = True
     tdir = os.path.join(VERIF, "tools")
+    wanted = None if pid is None else TRANSLATORS_FOR.get(pid, [])
     for fn in sorted(os.listdir(tdir)):
-        if fn.startswith("translate_") and fn.endswith(".py"):
+        if fn.startswith("translate_") and fn.endswith(".py") and (wanted is None or fn in wanted):
             rc, out = sh([sys.executable, os.path.join(tdir, fn)], timeout=300)
             if rc != 0:
                 ok = False
@@ -353,7 +363,7 @@ class Check:
     # -- proof leg
     def proof_leg(self, model_targets, prop_file, proof_files, prop_module):
         """Builds models (must succeed) and the property file (may fail -> proof broken)."""
-        okt, tmsg = run_translators()
+        okt, tmsg = run_translators(self.pid)
         if not okt:
             self.broken.append("translator: " + tmsg[-500:])
         ok, out = coq_make(model_targets)
